@@ -128,15 +128,26 @@ def readChunks : Nat → RdSt → Bytes → Option RdSt
 
 def stripPrefix (p bs : Bytes) : Option Bytes := if p.isPrefixOf bs then some (bs.drop p.length) else none
 
+/-- the debug symbols collected from 0x02/0x03 chunks: the line blocks must form a valid line map -/
+def finishDebug : Option (List (Nat × List W) × List Char) → Option (Option DebugSyms)
+  | none => some none
+  | some (lm, src) => (LineMap.fromBlocks lm).map (fun m => some (⟨m, SourceInfo.ofText src⟩ : DebugSyms))
+
+/-- a symbol table exists iff there is a label or debug information -/
+def finishSym (st : RdSt) (debug : Option DebugSyms) : Option SymTab :=
+  if !st.labels.isEmpty || debug.isSome then some ⟨st.labels, st.rel, debug⟩ else none
+
 /-- `BinaryFormat::deserialize` -/
-def deserialize (bs : Bytes) : Option ObjFile := do
-  let body ← stripPrefix magic bs
-  let st ← readChunks (body.length + 1) {} body
-  let debug ← (match st.debug with
-    | none => some none
-    | some (lm, src) => (LineMap.fromBlocks lm).map (fun m => some (⟨m, SourceInfo.ofText src⟩ : DebugSyms)))
-  let sym := if !st.labels.isEmpty || debug.isSome then some (⟨st.labels, st.rel, debug⟩ : SymTab) else none
-  pure ⟨st.blocks, sym⟩
+def deserialize (bs : Bytes) : Option ObjFile :=
+  match stripPrefix magic bs with
+  | none => none
+  | some body =>
+    match readChunks (body.length + 1) {} body with
+    | none => none
+    | some st =>
+      match finishDebug st.debug with
+      | none => none
+      | some debug => some ⟨st.blocks, finishSym st debug⟩
 
 end Bin
 end Lc3V
